@@ -13,7 +13,7 @@ import ScyllaVerif.Proofs.CarrierStatic
 import ScyllaVerif.Proofs.CarrierTc
 import ScyllaVerif.Proofs.CarrierDims
 import ScyllaVerif.Proofs.CarrierDocs
-import ScyllaVerif.Proofs.Pager
+import ScyllaVerif.Proofs.PagerStream
 import ScyllaVerif.Generated.DocMatrix
 
 namespace ScyllaVerif.Props.C17
@@ -430,6 +430,55 @@ example :
     hasType (.hashMap (.scalar .str) (.vec (.opt (.scalar .i64)))) (.map [(.scalar .str [97], .vec [.none])]) = true := by
   decide +kernel
 
+/-- **A mismatch of KIND is refused whatever the value holds** — in particular for EMPTY collections, which the
+`full` hypothesis of the three theorems above excludes (an empty `Vec<i32>` bound to `text`, an empty map
+bound to a list, a leaf bound to the wrong native, a tuple value longer than the tuple type, a UDT value of
+another name): the error is a `BuiltinTypeCheckError` at the top (empty path), raised BEFORE ANY BYTE IS WRITTEN
+(the buffer is returned as it was given). -/
+theorem kind_mismatch_rejected (t : CqlTy) (x : RVal) (ws : Bool) (buf : Bytes)
+    (h : kindOk t (strip x).2 = false) :
+    ∃ k, ser t x ws buf = (buf, some ⟨[], k⟩) ∧ k.isTypeCheck = true := by
+  rw [ser]
+  generalize strip x = sc at h
+  obtain ⟨chk, core⟩ := sc
+  simp only [] at h ⊢
+  split
+  · exact ⟨.notEmptyable, rfl, rfl⟩
+  · cases core with
+    | null => simp [kindOk] at h
+    | unset => simp [kindOk] at h
+    | empty => simp [kindOk] at h
+    | scalar s body =>
+      cases t with
+      | native n =>
+        simp only [kindOk] at h
+        simp only [serScalar, h, Bool.false_eq_true, if_false]
+        exact ⟨.mismatchedType, rfl, rfl⟩
+      | _ => exact ⟨.mismatchedType, rfl, rfl⟩
+    | vec vs => cases t <;> simp [kindOk] at h <;> exact ⟨.notSetOrList, rfl, rfl⟩
+    | set vs => cases t <;> simp [kindOk] at h <;> exact ⟨.notSetOrList, rfl, rfl⟩
+    | map kvs => cases t <;> simp [kindOk] at h <;> exact ⟨.notMap, rfl, rfl⟩
+    | tuple fs =>
+      cases t with
+      | tuple ts =>
+        have hlt : ts.length < fs.length := by simpa [kindOk] using h
+        simp only [hlt, if_true]
+        exact ⟨.wrongElementCount, rfl, rfl⟩
+      | _ => exact ⟨.notTuple, rfl, rfl⟩
+    | udt ks name fs =>
+      cases t with
+      | udt dks dname fields =>
+        have hc : (decide (ks ≠ dks) || decide (name ≠ dname)) = true := by
+          simp only [kindOk] at h
+          by_cases h1 : ks = dks <;> by_cases h2 : name = dname <;> simp_all
+        simp only [hc, if_true]
+        exact ⟨.nameMismatch, rfl, rfl⟩
+      | _ => exact ⟨.notUdt, rfl, rfl⟩
+
+/-- The auditor's example: the EMPTY `Vec<i32>` bound to `text` (and to a map). -/
+example : kindOk (.native .text) (strip (.vec [])).2 = false ∧ kindOk (.map (.native .int) (.native .int)) (strip (.some (.vec []))).2 = false ∧
+    ser (.native .text) (.vec []) true [1, 2] = ([1, 2], some ⟨[], .notSetOrList⟩) := by decide
+
 /-! ## Part 3 — deserialization: `type_check` -/
 
 open ScyllaVerif.Proofs.CarrierTc (tcheck_iff tcheckCols_iff)
@@ -450,7 +499,10 @@ theorem row_typecheck_iff (cs : List Carrier) (ts : List CqlTy) :
 
 theorem row_untyped (ts : List CqlTy) : tcheckRow .untyped ts = none := rfl
 
-/-- **No typed reading without a passed type check**: a typed row iterator exists only if `type_check` of the
+/-- (Definitional: `typedIterNew` IS the three-line `match` of `TypedRowIterator::new`; there is no model of
+`next` / `deserialize` of a row — decoding is C01's subject — so these three lemmas only record what the
+constructor guards.  The substance is `row_typecheck_iff`, the `checked_*` lemmas below and, for the pager,
+`stream_rows_checked`.)  A typed row iterator exists only if `type_check` of the
 row type against the result's column specs succeeded — for a Rust tuple: as many columns as fields and every
 column accepted by its field's type, at any nesting depth — whatever the number and content of the rows. -/
 theorem typed_iter_checked (rc : RowCarrier) (specs : List CqlTy) (rows : Nat) (it : TypedIter)
@@ -481,13 +533,20 @@ theorem checked_tuple_arity (cs : List Carrier) (t : CqlTy) (h : deserAccepts (.
   cases t <;> simp [deserAccepts] at h
   exact ⟨_, rfl, h.1⟩
 
-/-- … and likewise the `unreachable!("Typecheck should have prevented this scenario!")` of the list / vector /
-map readers: the accepted column has the collection kind the reader expects. -/
-theorem checked_collection_kind (c : Carrier) (t : CqlTy) :
+/-- … and likewise the `unreachable!("Typecheck should have prevented this scenario!")` / `expect` sites of every
+reader: `Vec` (value.rs:1088-1103), the sets, `ListlikeIterator` (≈1005), `VectorIterator` (≈1246), the maps and
+`MapIterator` (≈1462), `UdtIterator` (≈1813) — the accepted column has the kind the reader destructures. -/
+theorem checked_collection_kind (c k v : Carrier) (t : CqlTy) :
     (deserAccepts (.vec c) t = true → (∃ e, t = .list e) ∨ (∃ e, t = .set e) ∨ ∃ e d, t = .vector e d) ∧
     (deserAccepts (.hashSet c) t = true → ∃ e, t = .set e) ∧
-    (deserAccepts (.btreeSet c) t = true → ∃ e, t = .set e) := by
-  refine ⟨?_, ?_, ?_⟩ <;> intro h <;> cases t <;> simp [deserAccepts] at h <;> simp
+    (deserAccepts (.btreeSet c) t = true → ∃ e, t = .set e) ∧
+    (deserAccepts (.listIter c) t = true → (∃ e, t = .list e) ∨ ∃ e, t = .set e) ∧
+    (deserAccepts (.vecIter c) t = true → ∃ e d, t = .vector e d) ∧
+    (deserAccepts (.hashMap k v) t = true → ∃ kt vt, t = .map kt vt) ∧
+    (deserAccepts (.btreeMap k v) t = true → ∃ kt vt, t = .map kt vt) ∧
+    (deserAccepts (.mapIter k v) t = true → ∃ kt vt, t = .map kt vt) ∧
+    (deserAccepts .udtIter t = true → ∃ ks n fs, t = .udt ks n fs) := by
+  refine ⟨?_, ?_, ?_, ?_, ?_, ?_, ?_, ?_, ?_⟩ <;> intro h <;> cases t <;> simp [deserAccepts] at h <;> simp
 
 example : typedIterNew (.cols [.scalar .i32, .scalar .str]) [.native .int, .native .blob] 1000
     = .error ⟨[.col 1], .mismatchedType⟩ := by rfl
@@ -504,11 +563,11 @@ theorem stream_rows_checked (check : List (String × CqlTy) → Bool) (pages : L
     (∀ i, StreamOut.row i ∈ outs → ∃ p, pages[i]? = some p ∧ check p.specs = true) ∧
     (∀ i, StreamOut.typeErr i ∈ outs → ∃ p, pages[i]? = some p ∧ check p.specs = false) := by
   constructor <;> intro i hi
-  · obtain ⟨k, p, hp, hok⟩ := ScyllaVerif.Proofs.Pager.typedStream_ok check pages outs h _ hi
+  · obtain ⟨k, p, hp, hok⟩ := ScyllaVerif.Proofs.PagerStream.typedStream_ok check pages outs h _ hi
     rcases hok with ⟨he, hc⟩ | ⟨he, _⟩
     · cases he; exact ⟨p, hp, hc⟩
     · cases he
-  · obtain ⟨k, p, hp, hok⟩ := ScyllaVerif.Proofs.Pager.typedStream_ok check pages outs h _ hi
+  · obtain ⟨k, p, hp, hok⟩ := ScyllaVerif.Proofs.PagerStream.typedStream_ok check pages outs h _ hi
     rcases hok with ⟨he, _⟩ | ⟨he, hc⟩
     · cases he
     · cases he; exact ⟨p, hp, hc⟩
@@ -545,7 +604,7 @@ documented carrier type at any nesting depth and every column type" to the agree
 which is then checked exhaustively (a finite table: `decide`). -/
 
 open ScyllaVerif.DocMatrix
-open ScyllaVerif.Proofs.CarrierDocs (deser_eq_docs ser_eq_docs)
+open ScyllaVerif.Proofs.CarrierDocs (deser_eq_docs ser_eq_docs doc_imp_acc)
 
 /-- The leaf tables of the model are the documentation's table (all 19 leaf carriers; an `exact_type_check!`
 transcribed with an extra or a missing native fails here). -/
@@ -560,8 +619,24 @@ theorem typecheck_matches_docs (c : Carrier) (t : CqlTy) (h : documentedDe c = t
     tcheck c t = none ↔ docAccepts c t = true := by
   rw [deser_typecheck_iff, deser_eq_docs leaf_tables_are_documented.1 c t h]
 
-/-- **`accepts_matches_docs`**: on write, the accepted pairs are exactly the documented ones plus the deviations
-the code documents in comments (`docLooseSer`), for every documented carrier type and every column type. -/
+/-- **Every pair the documentation lists is accepted on write** — `docAccepts` is the strict documentation relation
+(sets only into sets, tuples of equal arity), not a copy of the model — for every carrier type without a
+`MaybeEmpty` layer, at any nesting depth. -/
+theorem documented_pair_accepted (c : Carrier) (t : CqlTy) (hn : noME c = true) (h : docAccepts c t = true) :
+    accepts c t = true := doc_imp_acc leaf_tables_are_documented.2 c t hn h
+
+/-- … hence serialized: every value of a documented pair (no `CqlValue` inside, vector dimensions respected)
+is written, or is too big. -/
+theorem documented_pair_serializes (c : Carrier) (t : CqlTy) (x : RVal) (ws : Bool) (buf : Bytes)
+    (hn : noME c = true) (h : docAccepts c t = true) (ht : hasType c x = true) (hd : noDyn c = true)
+    (hdim : dimsOk t x = true) :
+    (ser t x ws buf).2 = none ∨ ∃ e, (ser t x ws buf).2 = some e ∧ e.kind.isSize = true :=
+  accepted_pair_serializes c t x ws buf (documented_pair_accepted c t hn h) ht hd hdim
+
+/-- (`docLooseSer` has the recursion of `accepts`: this equality holds for every carrier and only records that
+the model's write-side relation is "the documented pairs plus the three deviations the code comments name";
+the independent statement is `documented_pair_accepted` above.)  On write, the accepted pairs are the
+documented ones plus those deviations. -/
 theorem accepts_matches_docs (c : Carrier) (t : CqlTy) (h : documentedSer c = true) :
     accepts c t = docLooseSer c t := ser_eq_docs leaf_tables_are_documented.2 c t h
 
